@@ -80,8 +80,9 @@ func addressed(rec *world.Recording, view int, m storage.Message) bool {
 func preSteps(rec *world.Recording, snap world.Snapshot) map[string][]storage.Message {
 	w := rec.W
 	out := map[string][]storage.Message{"none": nil}
-	// (1) a reinitialisation message that cannot be completed (empty round id)
-	bad := types.ReDKG{DKGID: "", Threshold: w.T}
+	// (1) a reinitialisation message that cannot be completed: its round id is blank, so the
+	// replay loop runs and creating the round afterwards fails
+	bad := types.ReDKG{DKGID: "   ", Threshold: w.T}
 	out["failed-reinit"] = []storage.Message{world.SignedMessage(rec.Round, string(types.ReinitDKG), world.MustJSON(bad), w.Nodes[1].Name, w.Nodes[1].KeyPair.Priv, "")}
 	// (2) a reinitialisation message about a round this node does not know
 	other := types.ReDKG{DKGID: "0000000000000000000000000000000000000000000000000000000000000042", Threshold: w.T}
